@@ -29,7 +29,7 @@ REQUIRED_MONITORS = ["Polygon.area", "Polygon.signed_area", "Polygon.perimeter",
                      "Polygon.planar_moments_inertia(xy,+z)", "Polygon.polar_moment_inertia", "Polygon.inertia_tensor",
                      "lattice-exact"]
 REQUIRED_CLASSES = ["orient:cw", "orient:ccw", "plane:tilted", "plane:xy", "kind:comb", "kind:star", "kind:lattice",
-                    "kind:convex", "kind:spiral", "history:aged-object", "polygon:far-from-origin"]
+                    "kind:convex", "kind:spiral", "history:aged-object", "history:sibling-aged", "polygon:far-from-origin"]
 
 
 def ncases(tier):
@@ -208,8 +208,8 @@ def run_case(i, rng, rec, tier, state):
     # one case in four goes on with the same object (whatever it memoised during the reads above is now at stake): moved,
     # resized through the public setters, to_hoomd, then read again; the postconditions judge against the current vertices
     if i % 4 == 2:
-        hist = aging.age(s, rng, reads=False, inplane=not c["tilted"])
-        rec.cls("history:aged-object")
+        hist, _sib = aging.age_or_sibling(s, rng, reads=False, inplane=not c["tilted"])
+        rec.cls("history:aged-object" if _sib is None else "history:sibling-aged")
         for m in MEMBERS:
             try:
                 getattr(s, m)
